@@ -15,7 +15,7 @@ func init() {
 	core.Register(&core.Check{
 		ID:    "C28",
 		Level: "exploration",
-		Rule: "harness-signed documents (5 SubFilters x /Contents last in its dictionary or not x exactly sized or zero padded; plus two-signature documents) are manipulated the way an attacker owning the signing key can: (a) bytes appended after the signed revision {newline, space, comment, second %%EOF}; (b) a valid incremental update appended (new object, xref section with /Prev); (c) /ByteRange rewritten and the signature RE-COMPUTED over the new ranges: first offset != 0, gap start shifted by every d1 in -8..8 x gap end shifted by every d2 in -8..8 (full product, includes widened, narrowed, shifted and overlapping gaps), last range ending short of / beyond the end of file; (d) in two-signature documents the first signature (covering revision 1 only); oracle: DocModified=false is reported for a signature only if its ranges start at 0, the gap is exactly the /Contents hex string and (public API seam) the last range ends at the end of the file; the per-SubFilter validators of pkg/pdfcpu/sign are judged on the first two conditions, the public API on all three; " +
+		Rule: "harness-signed documents (5 SubFilters x /Contents last in its dictionary or not x exactly sized or zero padded; the four legacy SubFilters in a dictionary typed /DocTimeStamp; plus two-signature documents) are manipulated the way an attacker owning the signing key can: (a) bytes appended after the signed revision {newline, space, comment, second %%EOF}; (b) a valid incremental update appended (new object, xref section with /Prev); (c) /ByteRange rewritten and the signature RE-COMPUTED over the new ranges: first offset != 0, gap start shifted by every d1 in -8..8 x gap end shifted by every d2 in -8..8 (full product, includes widened, narrowed, shifted and overlapping gaps), last range ending short of / beyond the end of file; (d) in two-signature documents the first signature (covering revision 1 only); oracle: DocModified=false is reported for a signature only if its ranges start at 0, the gap is exactly the /Contents hex string and (public API seam) the last range ends at the end of the file; the per-SubFilter validators of pkg/pdfcpu/sign are judged on the first two conditions, the public API on all three; " +
 			"non-trivial = a manipulated variant that a validator judged (not rejected as unreadable)",
 		Assume:   []string{"through the public API form signatures currently never report DocModified=false even when untouched, so for them the public-API judgement is vacuous; document timestamps are not (counted in the evidence)"},
 		Run:      func(r *core.R) { api.DisableConfigDir(); core.Sharded(r, 16) },
@@ -75,6 +75,12 @@ func c28shard(r *core.R, shard, n int) {
 			for _, ex := range []bool{false, true} {
 				docs = append(docs, dspec{fmt.Sprintf("%s,contentsLast=%v,exact=%v", k, cl, ex), sigdoc.Options{SubFilter: k, ContentsLast: cl, Exact: ex}})
 			}
+		}
+	}
+	// /Type and /SubFilter disagree: a legacy signature dictionary typed as a document timestamp
+	for _, k := range sigdoc.Kinds {
+		if k != "ETSI.RFC3161" {
+			docs = append(docs, dspec{k + ",typed-as-DocTimeStamp", sigdoc.Options{SubFilter: k, TypeDocTimeStamp: true}})
 		}
 	}
 	docs = append(docs, dspec{"adbe.pkcs7.detached then ETSI.CAdES.detached", sigdoc.Options{SubFilter: "adbe.pkcs7.detached", Second: "ETSI.CAdES.detached"}})
@@ -193,7 +199,7 @@ func c28shard(r *core.R, shard, n int) {
 					continue
 				}
 			}
-			r.Eval(1)
+			r.Eval(2) // one judgement per seam (per-SubFilter validator, public API)
 			si := doc.Sigs[v.sig]
 			rep := map[string]any{"document": dd.name, "variant": v.name}
 			var sv, av []sigdoc.Verdict
